@@ -14,6 +14,10 @@ PIPE_CAUGHT = (AttributeError, NameError, LookupError, TypeError, ValueError)
 EXISTS_CAUGHT = (AttributeError, LookupError, TypeError, NameError)
 
 
+class InvalidExpression(Exception):
+    """a syntactically invalid expression was reached (C19): args[0] = planted site number"""
+
+
 class Structure:
     def __init__(self, value):
         self.value = value
@@ -117,6 +121,8 @@ class Ref:
     def ev(self, e, scope, default_ok=False):
         if 'py' in e:
             code = self.codes[e['py']]
+            if code is None:
+                raise InvalidExpression(e.get('site'))
             # names: template variables first, then helpers, then Python builtins.  The environment is
             # passed as *globals* so that lambdas/comprehensions inside the expression see it too.
             g = {'__builtins__': _builtins}
